@@ -2,7 +2,7 @@
    (bool, option, unit, list, prod, sumbool, sumor); N, Z, positive, nat stay inductive. *)
 From Coq Require Import Extraction ExtrOcamlBasic.
 From FV Require Import Model.Base Model.Sink Model.Crc Model.Codes Model.Rice Model.Predict
-  Model.Component Model.Encoder Model.Flac Model.FailSink Proofs.OpsLen.
+  Model.Component Model.Encoder Model.Flac Model.FailSink Model.Source Proofs.OpsLen.
 Extraction Language OCaml.
 Set Extraction KeepSingleton.
 Separate Extraction
@@ -13,6 +13,8 @@ Separate Extraction
   Rice.encode_residual Rice.residual_bits Rice.zigzag
   Predict.fixed_errors Predict.lpc_errors Predict.lpc_fits
   OpsLen.ops_len Component.residual_count_bits Component.residual_ops Component.header_ops Component.header_count_bits Component.pack
+  Source.deinterleave Source.le_bytes_to_i32s Source.i32s_to_le_bytes Source.le_bytes_of Source.fb_new Source.ctx_new
+  Source.fill_le_bytes Source.fill_interleaved Source.ctx_fill_le_bytes Source.ctx_fill_interleaved Source.observable
   FailSink.expand FailSink.write_failing Component.stream_ops
   Component.stream_bytes Component.frame_bytes Component.stream_count_bits Component.frame_count_bits
   Component.subframe_count_bits Component.subframe_ops Component.precompute
